@@ -13,6 +13,13 @@ package sexp
 //@ define atByte(r, c) = rdpos(r) < rdlen(r) && rdat(r, rdpos(r)) == c
 //@ define rdAdvanced(r) = rdpos(r) >= old(rdpos(r)) && rdpos(r) <= rdlen(r)
 
+//@ func sexp.isWhitespace
+//@   pure
+//@   ensures [C13.sexp.isws] result == isWS(c)
+//@ func sexp.isNotSymbolCharacter
+//@   pure
+//@   ensures [C13.sexp.notsym] result == (isWS(c) || c == 40 || c == 41)
+
 //@ func sexp.peek
 //@   requires rdOK(r)
 //@   modifies rdpos(r), rdlast(r)
@@ -28,7 +35,7 @@ package sexp
 //@   ensures [C13.sexp.ws.stop] rdpos(r) >= rdlen(r) || !isWS(rdat(r, rdpos(r)))
 //@   ensures [C13.sexp.ws.noop] (old(rdpos(r)) < rdlen(r) && !isWS(rdat(r, old(rdpos(r))))) ==> rdpos(r) == old(rdpos(r))
 //@ loop sexp.ReadWhitespace #0
-//@   invariant rdOK(r) && rdpos(r) >= old(rdpos(r)) && ((e == ioEOF()) <==> (rdpos(r) >= rdlen(r))) && (e == nil ==> c == rdat(r, rdpos(r)))
+//@   invariant rdOK(r) && rdpos(r) >= old(rdpos(r)) && ((e == ioEOF()) <==> (rdpos(r) >= rdlen(r))) && (e == nil ==> c == rdat(r, rdpos(r))) && (e == nil || e == ioEOF())
 //@   invariant (old(rdpos(r)) < rdlen(r) && !isWS(rdat(r, old(rdpos(r))))) ==> rdpos(r) == old(rdpos(r))
 //@   decreases rdlen(r) - rdpos(r)
 
@@ -40,7 +47,7 @@ package sexp
 //@   ensures [C13.sexp.expect.hit] (old(rdpos(r)) < rdlen(r) && rdat(r, old(rdpos(r))) == c && !isWS(c)) ==> result
 
 //@ loop sexp.ReadDataUntil #0
-//@   invariant rdOK(r) && rdpos(r) >= old(rdpos(r)) && nonglobal(result) && ((err == ioEOF()) <==> (rdpos(r) >= rdlen(r))) && (err == nil ==> c == rdat(r, rdpos(r))) && (err == nil || err == ioEOF())
+//@   invariant rdOK(r) && rdpos(r) >= old(rdpos(r)) && fresh(result) && ((err == ioEOF()) <==> (rdpos(r) >= rdlen(r))) && (err == nil ==> c == rdat(r, rdpos(r))) && (err == nil || err == ioEOF())
 //@   decreases rdlen(r) - rdpos(r)
 
 //@ func sexp.ReadListStart
@@ -53,26 +60,57 @@ package sexp
 //@   modifies rdpos(r), rdlast(r)
 //@   ensures rdAdvanced(r) && (result ==> rdpos(r) > old(rdpos(r)))
 
+//@ func sexp.ReadStringStart
+//@   requires rdOK(r)
+//@   modifies rdpos(r), rdlast(r)
+//@   ensures rdAdvanced(r) && (result ==> rdpos(r) > old(rdpos(r)))
+//@   ensures (old(rdpos(r)) < rdlen(r) && rdat(r, old(rdpos(r))) == 34) ==> result
+//@ func sexp.ReadStringEnd
+//@   requires rdOK(r)
+//@   modifies rdpos(r), rdlast(r)
+//@   ensures rdAdvanced(r) && (result ==> rdpos(r) > old(rdpos(r)))
+//@   ensures (old(rdpos(r)) < rdlen(r) && rdat(r, old(rdpos(r))) == 34) ==> result
+//@ func sexp.ReadBigNumStart
+//@   requires rdOK(r)
+//@   modifies rdpos(r), rdlast(r)
+//@   ensures rdAdvanced(r) && (result ==> rdpos(r) > old(rdpos(r)))
+//@   ensures (old(rdpos(r)) < rdlen(r) && rdat(r, old(rdpos(r))) == 35) ==> result
+//@ func sexp.ReadBigNumEnd
+//@   requires rdOK(r)
+//@   modifies rdpos(r), rdlast(r)
+//@   ensures rdAdvanced(r) && (result ==> rdpos(r) > old(rdpos(r)))
+//@   ensures (old(rdpos(r)) < rdlen(r) && rdat(r, old(rdpos(r))) == 35) ==> result
+//@ func sexp.Read
+//@   requires rdOK(r)
+//@   modifies rdpos(r), rdlast(r)
+//@   ensures [C13.sexp.read.pos] rdAdvanced(r)
+
 //@ func sexp.ReadString
 //@   requires rdOK(r)
 //@   modifies rdpos(r), rdlast(r)
 //@   ensures [C13.sexp.string.pos] rdAdvanced(r)
+//@   ensures [C17.sexp.string.type] result == nil || typeis(result, Sstring)
 //@   ensures [C13.sexp.string.progress] (old(rdpos(r)) < rdlen(r) && rdat(r, old(rdpos(r))) == 34) ==> rdpos(r) > old(rdpos(r))
 //@ func sexp.ReadBigNum
 //@   requires rdOK(r)
 //@   modifies rdpos(r), rdlast(r)
 //@   ensures [C13.sexp.bignum.pos] rdAdvanced(r)
+//@   ensures [C17.sexp.bignum.type] result == nil || typeis(result, BigNum)
+//@   ensures [C20.sexp.bignum.fresh] typeis(result, BigNum) ==> (unbox(result, BigNum).val == nil || fresh(unbox(result, BigNum).val))
 //@   ensures [C13.sexp.bignum.progress] (old(rdpos(r)) < rdlen(r) && rdat(r, old(rdpos(r))) == 35) ==> rdpos(r) > old(rdpos(r))
 //@ func sexp.ReadSymbol
 //@   requires rdOK(r)
 //@   modifies rdpos(r), rdlast(r)
 //@   ensures [C13.sexp.symbol.pos] rdAdvanced(r)
+//@   ensures [C17.sexp.symbol.type] typeis(result, Symbol)
 //@   ensures [C13.sexp.symbol.progress] (old(rdpos(r)) < rdlen(r) && !isWS(rdat(r, old(rdpos(r)))) && rdat(r, old(rdpos(r))) != 40 && rdat(r, old(rdpos(r))) != 41) ==> rdpos(r) > old(rdpos(r))
 
 //@ func sexp.ReadValue
 //@   requires rdOK(r)
 //@   modifies rdpos(r), rdlast(r)
 //@   ensures [C13.sexp.value.pos] rdAdvanced(r)
+//@   ensures [C17.sexp.value.type] result0 == nil || typeis(result0, Snil) || typeis(result0, Cons) || typeis(result0, Sstring) || typeis(result0, BigNum) || typeis(result0, Symbol)
+//@   ensures [C20.sexp.value.fresh] typeis(result0, BigNum) ==> (unbox(result0, BigNum).val == nil || fresh(unbox(result0, BigNum).val))
 //@   ensures [C13.sexp.value.progress] !result1 ==> rdpos(r) > old(rdpos(r))
 //@   decreases 2 * (rdlen(r) - rdpos(r)) + 1
 
@@ -80,6 +118,7 @@ package sexp
 //@   requires rdOK(r)
 //@   modifies rdpos(r), rdlast(r)
 //@   ensures [C13.sexp.list.pos] rdAdvanced(r)
+//@   ensures [C17.sexp.list.type] result == nil || typeis(result, Snil) || typeis(result, Cons)
 //@   ensures [C13.sexp.list.progress] (old(rdpos(r)) < rdlen(r) && rdat(r, old(rdpos(r))) == 40) ==> rdpos(r) > old(rdpos(r))
 //@   decreases 2 * (rdlen(r) - rdpos(r))
 
@@ -87,4 +126,5 @@ package sexp
 //@   requires rdOK(r)
 //@   modifies rdpos(r), rdlast(r)
 //@   ensures [C13.sexp.item.pos] rdAdvanced(r)
+//@   ensures [C17.sexp.item.type] typeis(result, Snil) || typeis(result, Cons)
 //@   decreases 2 * (rdlen(r) - rdpos(r)) + 2
